@@ -87,7 +87,9 @@ def mutate(case, kind, pick):
             new = ["lit", sub[1] + 1]
         elif kind == "lit_type":
             v = sub[1]
-            if isinstance(v, int):
+            if isinstance(v, int) and v in (0, 1) and pick([True, False]):
+                new = ["lit", bool(v)]  # 1 vs True: equal as Python values, different SQL (1 / TRUE)
+            elif isinstance(v, int):
                 new = ["lit", float(v)]
             elif float(v).is_integer():
                 new = ["lit", int(v)]
